@@ -75,18 +75,11 @@ def RegTy.td (H : Decl → Nat) : RegTy → TD
   | .plain t => (t, [])
   | .tuple d lv => (mkTupleTy H d lv, d)
 
-/-- A symbol is *coherent* when its type is what its decl says: a non-tuple has no decl, a tuple's minor
-is the hash of its decl. `parsingEnd` restores a tuple symbol from the decl only, so an incoherent one
-(reachable through the host API: a null tuple value with a foreign minor stored by `storeVariable`)
-is not restored — see Proofs/C11 `incoherent_not_restored`. -/
+/-- A symbol is *coherent* when a recorded decl is the decl of its type: `decl ≠ [] → type = make_type(decl, level)`.
+This is an invariant of class `Symbol` (both constructors and both `upgrade` overloads establish it; a symbol typed
+from a null tuple VALUE by `storeVariable` has a tuple type with some minor and NO decl, which is coherent). -/
 def TD.coherent (H : Decl → Nat) (td : TD) : Bool :=
-  if td.1.major = ROWTYPE then td.1 == mkTupleTy H td.2 td.1.level else td.2.isEmpty
-
-/-- the registrations the statement parsers perform: `plain t` with a tuple major occurs only with minor 0
-(`x:tuple`, an untyped table element), never with a hash (LET and FORALL take the decl overload) -/
-def RegTy.coherent : RegTy → Bool
-  | .plain t => !(t.major == ROWTYPE) || t.minor == 0
-  | .tuple _ _ => true
+  td.2.isEmpty || td.1 == mkTupleTy H td.2 td.1.level
 
 inductive SafetyCheck | ko | equ | upg
   deriving DecidableEq, Repr
@@ -151,10 +144,10 @@ inductive PErr
 
 def parsingBegin (c : Ctx) : Ctx := { c with parsing := true }
 
-/-- what the restore loop writes back for one backup: `upgrade(decl, level)` for a tuple major
-(type recomputed from the decl), `upgrade(type)` otherwise (decl cleared) -/
+/-- what the restore loop writes back for one backup: `upgrade(decl, level)` for a tuple major WITH a decl
+(type recomputed from the decl), `upgrade(type)` otherwise (type as it was, decl cleared) -/
 def restoreTD (H : Decl → Nat) (b : Backup) : TD :=
-  if b.td.1.major = ROWTYPE then (mkTupleTy H b.td.2 b.td.1.level, b.td.2) else (b.td.1, [])
+  if b.td.1.major = ROWTYPE ∧ ¬ b.td.2.isEmpty = true then (mkTupleTy H b.td.2 b.td.1.level, b.td.2) else (b.td.1, [])
 
 def restoreOne (H : Decl → Nat) (tds : List TD) (b : Backup) : List TD :=
   modAt (fun _ => restoreTD H b) b.id tds
@@ -270,16 +263,15 @@ def createOrReplace (fns : List Fn) (name : String) (arity fid : Nat) : List Fn 
   | some i => (modAt (fun _ => ⟨name, arity, fid, false⟩) i fns, fns[i]?)
   | none => (fns ++ [⟨name, arity, fid, false⟩], none)
 
-/-- `FunctorManager::rollback` — looks at the LAST declaration only -/
+/-- `FunctorManager::rollback`: with a backed-up functor, the (first) entry of its name and arity — wherever it is in
+the table — is swapped back; without one the last declaration (the one just created) is removed. -/
 def rollback (fns : List Fn) (bk : Option Fn) : List Fn × Option Fn :=
-  match fns.getLast? with
-  | none => (fns, bk)
-  | some last =>
-    match bk with
-    | some b =>
-      if last.is b.name b.arity then (fns.dropLast ++ [b], some last)   -- swap
-      else (fns, bk)                                                    -- nothing happens
-    | none => (fns.dropLast, none)
+  match bk with
+  | some b =>
+    match findFn b.name b.arity fns with
+    | some i => (modAt (fun _ => b) i fns, fns[i]?)     -- swap
+    | none => (fns, bk)                                 -- nothing happens
+  | none => (fns.dropLast, none)
 
 /-- the function whose body is being parsed (in its private context): nesting depth inside the body -/
 structure Child where
@@ -337,7 +329,6 @@ def step (H : Decl → Nat) (st : St) (e : Ev) : Except PErr St :=
   | none =>
     match e with
     | .reg n r =>
-      if !r.coherent then .error .other else
       match registerSymbol H st.ctx n r with
       | .ok c => .ok { st with ctx := c }
       | .error err => .error err
@@ -419,12 +410,21 @@ def FnsPreserved (c c' : Ctx) : Prop := c'.fns.take c.fns.length = c.fns
 
 instance (c c' : Ctx) : Decidable (FnsPreserved c c') := by unfold FnsPreserved; exact inferInstance
 
-/-! ## known-finding regions, decided from the event sequence -/
+/-! ## known-finding region, decided from the event sequence -/
 
-/-- does some `fnBegin` of the text name a function (name, arity) that exists in `c`? -/
-def redefinesExisting (c : Ctx) (evs : List Ev) : Bool :=
-  evs.any fun e => match e with
-    | .fnBegin n a _ => (findFn n a c.fns).isSome
-    | _ => false
+/-- this event completes the declaration of a function whose (name, arity) exists in `c0` -/
+def completesExisting (c0 : Ctx) (st : St) (e : Ev) : Bool :=
+  match st.child, e with
+  | some ch, .leave => decide (ch.depth ≤ 1) && (findFn ch.name ch.arity c0.fns).isSome
+  | _, _ => false
+
+/-- does the text, before its error, COMPLETE a redefinition of a function that existed in `c0`?
+(`function f … end;` parsed entirely, then a later statement fails) -/
+def redefinitionCompleted (H : Decl → Nat) (c0 : Ctx) : St → List Ev → Bool
+  | _, [] => false
+  | st, e :: es =>
+    match step H st e with
+    | .ok st' => completesExisting c0 st e || redefinitionCompleted H c0 st' es
+    | .error _ => false
 
 end BlocV.ParseCtx
